@@ -344,10 +344,32 @@ func (r *vRun) runTeardown() {
 	side := tr.n(2)
 	// a run has roughly 4 (handshake) + 2..200 wire events; bias to the early ones
 	at := 1 + tr.pick(tr.n(4), tr.n(12), tr.n(40), tr.n(150))
+	// extensions draw from their own stream, so that the scenarios above stay what they were
+	xr := &vrand{s: uint64(sc.seed)*6151 + uint64(sc.idx)*769 + 5}
+	var cancel0 context.CancelFunc
+	if xr.chance(25) {
+		// the client connects with a context that is cancelled: right after the k-th wire event, or (2 of 3) at the very
+		// moment the COOKIE-ACK is handed to it, so that the cancel can fall while the COOKIE-ACK is being processed
+		kind, side = "ctxcancel", 0
+		r.ctx0, cancel0 = context.WithCancel(context.Background())
+		defer cancel0()
+		if xr.chance(66) {
+			r.holdCA = true
+		} else {
+			at = 1 + xr.n(5)
+		}
+	}
+	ncall := 1 + xr.n(4) // Close / Abort are called from this many goroutines at once
+	if xr.chance(35) && !r.native {
+		r.idleSide = [2]bool{xr.chance(70), xr.chance(70)} // the first stream accepted on that side gets the idle deadline reader
+	}
 	r.mu.Lock()
 	r.trigAt, r.trigCh = at, make(chan struct{})
 	trig := r.trigCh
 	r.mu.Unlock()
+	if r.holdCA {
+		trig = r.heldCh
+	}
 	r.logf("e2e inject %s %d %d", kind, side, at)
 
 	var all sync.WaitGroup // every API caller of this run
@@ -374,6 +396,12 @@ func (r *vRun) runTeardown() {
 				continue
 			}
 			r.logf("e2e open %d %d 0 0 0 -> nil", ss.dir, ss.id)
+			if sc.idx%7 == 3 && !r.native {
+				// a read deadline far in the future on a stream nobody reads: its helper goroutine and timer must not
+				// outlive the association
+				_ = s.SetReadDeadline(time.Now().Add(time.Hour))
+				r.logf("e2e longdeadline %d %d", ss.dir, ss.id)
+			}
 			i, ss := i, ss
 			wwg.Add(1)
 			go func() {
@@ -403,6 +431,16 @@ func (r *vRun) runTeardown() {
 		defer cancel()
 		err := r.as[0].Shutdown(ctx)
 		r.logf("e2e shutdown 0 -> %s %d", vErrClass(err), time.Since(r.link.start).Milliseconds())
+		if err != nil {
+			// the shutdown did not go through (e.g. the peer's application does not read): the application gives up and
+			// closes both ends, otherwise the calls parked in AcceptStream / Read would (rightly) wait for ever
+			for sd := 0; sd < 2; sd++ {
+				if a := r.assoc(sd); a != nil {
+					_ = a.Close()
+				}
+			}
+			r.logf("e2e giveup")
+		}
 	}()
 	go func() { all.Wait(); close(finished) }()
 
@@ -414,21 +452,59 @@ func (r *vRun) runTeardown() {
 	}
 	t0 := time.Now()
 	if injected {
-		a := r.as[side]
+		a := r.assoc(side)
 		switch kind {
 		case "close":
 			if a != nil {
-				err := a.Close()
-				r.logf("e2e closecall %d -> %s", side, vErrClass(err))
+				var cwg sync.WaitGroup
+				for k := 0; k < ncall; k++ {
+					cwg.Add(1)
+					go func() {
+						defer cwg.Done()
+						err := a.Close()
+						r.logf("e2e closecall %d -> %s", side, vErrClass(err))
+					}()
+				}
+				cwg.Wait()
 			} else {
 				r.link.ends[side].fail() // still inside the constructor: all we can do is fail the transport
 			}
 		case "abort":
 			if a != nil {
-				a.Abort("verif-abort-reason")
+				var cwg sync.WaitGroup
+				for k := 0; k < ncall; k++ {
+					k := k
+					cwg.Add(1)
+					go func() {
+						defer cwg.Done()
+						if k == 2 { // a Close racing with the Aborts
+							err := a.Close()
+							r.logf("e2e closecall %d -> %s", side, vErrClass(err))
+							return
+						}
+						a.Abort("verif-abort-reason")
+					}()
+				}
+				cwg.Wait()
 				r.logf("e2e abortcall %d -> done", side)
 			} else {
 				r.link.ends[side].fail()
+			}
+		case "ctxcancel":
+			r.link.mu.Lock()
+			held, hidx := r.heldCA, r.heldIdx
+			r.link.mu.Unlock()
+			switch {
+			case held == nil:
+				cancel0()
+			case xr.chance(50):
+				// both become runnable at the same instant; which of the two the scheduler runs first decides whether the
+				// handler finds the constructor still listening
+				cancel0()
+				r.link.ends[0].deliver(held, 1, hidx)
+			default:
+				r.link.ends[0].deliver(held, 1, hidx)
+				cancel0()
 			}
 		case "readfail":
 			r.link.ends[side].fail()
@@ -448,6 +524,14 @@ func (r *vRun) runTeardown() {
 		}
 		r.logf("e2e injected %s %d %d", kind, side, time.Since(r.link.start).Milliseconds())
 	}
+	if kind == "ctxcancel" {
+		// the cancelled constructor returns without an association; the peer learns it from its transport
+		select {
+		case <-finished:
+		case <-time.After(5 * time.Second):
+			r.link.ends[1].fail()
+		}
+	}
 	select {
 	case <-finished:
 		r.logf("e2e unblocked -> true %d", time.Since(t0).Milliseconds())
@@ -460,7 +544,7 @@ func (r *vRun) runTeardown() {
 	}
 	// repeated Close calls are harmless
 	for sd := 0; sd < 2; sd++ {
-		if a := r.as[sd]; a != nil {
+		if a := r.assoc(sd); a != nil {
 			e1 := a.Close()
 			e2 := a.Close()
 			r.logf("e2e reclose %d -> %s %s", sd, vErrClass(e1), vErrClass(e2))
@@ -468,6 +552,21 @@ func (r *vRun) runTeardown() {
 		r.link.ends[sd].fail()
 	}
 	<-finished
+	// both associations are closed for good. The idle deadline readers come back now: they let their old deadline run out,
+	// set a new one (or none) and read
+	close(r.idleGo)
+	idleDone := make(chan struct{})
+	go func() { r.idleWG.Wait(); close(idleDone) }()
+	tI := time.Now()
+	select {
+	case <-idleDone:
+	case <-time.After(2*time.Hour + 120*time.Second):
+		r.logf("e2e idleunblocked -> false %d", time.Since(tI).Milliseconds())
+		r.mu.Lock()
+		r.l.w.Flush()
+		r.mu.Unlock()
+		<-idleDone // never comes: the bubble reports the blocked reader
+	}
 }
 
 func TestVerifE2ETeardown(t *testing.T) { vE2EMain(t, "teardown") }
